@@ -50,7 +50,8 @@ def gen_history(H):
     for _ in range(1 + H.draw(8)):
         size = 1 + H.draw(min(n_ind, 8))
         members = [H.draw(n_ind) for _ in range(size)]
-        calls.append({"problem": H.draw(nprob), "members": members, "via": H.weighted([("evaluator", 4), ("tracker", 2), ("population", 1), ("step", 2)])})
+        calls.append({"problem": H.draw(nprob), "members": members,
+                      "via": H.weighted([("evaluator", 4), ("tracker", 2), ("population", 1), ("step", 2), ("default_tracker", 2)])})
     return {"problems": probs, "n_ind": n_ind, "genotypes": [H.draw(50) for _ in range(n_ind)], "calls": calls}
 
 
@@ -133,6 +134,20 @@ def run(ctx):
                 fresh = len({id(m) for m in members if not m.has_fitness(problem)})
                 try:
                     if call["via"] == "evaluator":
+                        ex.evaluator.evaluate(problem, members)
+                    elif call["via"] == "default_tracker":
+                        if mode == "sequential":
+                            # a tracker built WITHOUT an evaluator (the library default): it counts its own evaluations only
+                            T = SingleObjectiveProgressTracker if isinstance(problem, SingleObjectiveProblem) else MultiObjectiveProgressTracker
+                            tr = T(problem)
+                            before = tr.get_number_evaluations()
+                            tr.evaluate(members)
+                            if before != 0 or tr.get_number_evaluations() != len(ex.log) - n0:
+                                ctx.violate("C13/counter/default-tracker/not-its-own-evaluations",
+                                            f"a freshly built tracker (no evaluator given) reported {before} evaluations before and {tr.get_number_evaluations()} after "
+                                            f"evaluating a batch for which the fitness function was invoked {len(ex.log) - n0} times")
+                                return
+                            continue
                         ex.evaluator.evaluate(problem, members)
                     elif call["via"] in ("tracker", "population"):
                         if pi not in trackers:
